@@ -2,7 +2,8 @@
 # Builds the gosym engine offline from files on disk only.
 set -e
 export GOFLAGS=-mod=mod GOPROXY=off GOSUMDB=off GOTOOLCHAIN=local
-cd /verif/engine
-mkdir -p /verif/bin /verif/evidence
-go build -o /verif/bin/check .
-echo "built /verif/bin/check"
+D=$(cd "$(dirname "$0")" && pwd)
+mkdir -p "$D/bin" "$D/evidence"
+cd "$D/engine"
+go build -o "$D/bin/check" .
+echo "built $D/bin/check"
